@@ -61,7 +61,7 @@ def generate(seed, tier, index):
     exact_int = all(v == math.floor(v) for v in spec["state"])
     # exact-integer workloads: state written in molecules so that no unit round trip touches the integers
     rich = rs.chance(0.5) and not exact_int
-    entry = C.make_script_entry(rs, ru, rk, kind, None, {"steps": (2, 6), "isp": isp, "p_seed": 1.0, "policy": "on_iteration"},
+    entry = C.make_script_entry(rs, ru, rk, kind, None, {"steps": (2, 6), "isp": isp, "p_seed": 1.0, "policy": "on_iteration", "tauleap_fractional_none": 1.0},
                                 rich=rich, mild_units=True, spec=spec)
     if kind != "euler" and entry["phys"]["sp"]["isp"] != isp:
         # gen_script refused 'none' on a non-integer state for a stochastic engine
@@ -249,6 +249,16 @@ def check(case, results):
         if out["n"] >= 1:
             if out["raw_x"][:8 * size] != o["x"]:
                 viol.append(dict(ctx, oracle="C14.sample0", op=5, detail="sample 0 is not the processed initial state"))
+            else:
+                # ... and what the user receives is that state in the script's units
+                us = phys["us"]
+                fq2 = si.factor(evs[3]["eus"], si.DIM_QUANTITY) / si.factor(us, si.DIM_QUANTITY) if "eus" in evs.get(3, {}) else None
+                if fq2 is not None:
+                    d0 = np.frombuffer(out["data"], dtype=np.float64)[:size]
+                    x0_ = np.frombuffer(o["x"], dtype=np.float64)
+                    if np.any(np.abs(d0 - x0_ * fq2) > 1e-13 * np.abs(d0) + 1e-300 * 0) and np.any(np.abs(d0 - x0_ * fq2) > 1e-13 * np.abs(x0_ * fq2)):
+                        viol.append(dict(ctx, oracle="C14.sample0", op=5,
+                                         detail="trajectory.data at t=0 is not the processed initial state expressed in the script's units"))
             if 3 in evs and evs[3].get("status"):
                 viol.append(dict(ctx, **{"class": "hang", "oracle": "C14.terminates", "op": 3,
                                          "detail": "the redistribution loop exceeded its budget"}))
